@@ -545,7 +545,7 @@ type replayOutcome struct {
 
 // replay feeds chunks to a fresh endpoint of the scenario. chunks[:first] are sent first; the rest
 // only if the endpoint is then alive and waiting (that is what "the fault was reached" means).
-func (t *transcript) replay(chunks [][]byte, first int, prog int, observer bool, closeBoth bool) replayOutcome {
+func (t *transcript) replay(chunks [][]byte, first int, prog int, observer bool, closeBoth bool, failWrites bool) replayOutcome {
 	var out replayOutcome
 	a, b, _ := netx.Pipe(netx.Options{}, netx.Options{})
 	var eutEnd, peerEnd *netx.Conn
@@ -591,6 +591,11 @@ func (t *transcript) replay(chunks [][]byte, first int, prog int, observer bool,
 	}
 	if alive {
 		out.reached = true
+		if failWrites {
+			// from now on every transport write of the endpoint fails at once, while its input stays open:
+			// whatever it has to answer (KeyUpdate, alerts, ClientHello of a renegotiation) cannot be written
+			peerEnd.CloseRead()
+		}
 		send(chunks[first:])
 		if _, ok := e.waitIdle(written); !ok {
 			out.watchdog = true
@@ -751,7 +756,7 @@ func runC32(c *core.Ctx) {
 		}
 		id := sc.Name + "#control"
 		c.Begin(id, map[string]any{"scenario": sc.Name})
-		o := t.replay(cchunks, len(cchunks), 0, false, false)
+		o := t.replay(cchunks, len(cchunks), 0, false, false, false)
 		c.End(id)
 		c.Eval(1)
 		judge(c, id, map[string]any{"scenario": sc.Name, "plan": "control"}, cchunks, o)
@@ -819,7 +824,7 @@ func runC32(c *core.Ctx) {
 			}
 			input := map[string]any{"scenario": sc.Name, "plan": pi, "mutation": m, "program": prog, "observer": observer, "close_both": closeBoth, "seed": c.Seed}
 			c.Begin(id, input)
-			o := t.replay(chunks, first, prog, observer, closeBoth)
+			o := t.replay(chunks, first, prog, observer, closeBoth, false)
 			c.End(id)
 			c.Eval(1)
 			c.Count("plan:"+strings.SplitN(m.Kind, ":", 2)[0], 1)
@@ -842,6 +847,40 @@ func runC32(c *core.Ctx) {
 			}
 		}
 
+		// post-handshake family: the genuine script up to the end of the handshake, then a short sequence of records a
+		// peer may send in the data phase, cut at every point, optionally with the endpoint's own writes failing
+		if hsEnd := handshakeEnd(t.items); hsEnd > 0 && t.faithful && t.prot.ok {
+			for pi := 0; pi < c.Pick(30, 400); pi++ {
+				if blockedSeen >= 3 {
+					return
+				}
+				id := fmt.Sprintf("%s#post/%d", sc.Name, pi)
+				if c.OnlyCase != "" && c.OnlyCase != id {
+					continue
+				}
+				rng := rngFor(c.Seed, "C32/"+id)
+				tail, desc := postHandshakeTail(rng, t.items[:hsEnd], t.tls13)
+				items := append(append([]item(nil), t.items[:hsEnd]...), tail...)
+				chunks := applyEdits(serialise(items, t.prot), nil)
+				prog := rng.IntN(4)
+				failWrites := rng.IntN(2) == 0
+				closeBoth := rng.IntN(2) == 0
+				input := map[string]any{"scenario": sc.Name, "plan": "post-handshake sequence", "sequence": desc, "program": prog, "endpoint_writes_fail": failWrites, "close_both": closeBoth, "seed": c.Seed}
+				c.Begin(id, input)
+				o := t.replay(chunks, hsEnd, prog, false, closeBoth, failWrites)
+				c.End(id)
+				c.Eval(1)
+				c.Count("plan:post-handshake-sequence", 1)
+				judge(c, id, input, chunks, o)
+				if o.reached {
+					c.Nontrivial(id, desc)
+					c.Count("fault_reached", 1)
+				} else {
+					c.Count("fault_not_reached", 1)
+				}
+			}
+		}
+
 		// systematic sweep: every handshake message of the script cut at (quick: every structurally distinct, thorough: every)
 		// byte offset, and extended by 1-2 bytes, always well-framed (handshake header and record re-computed; a second
 		// variant also shrinks the enclosing vectors)
@@ -859,7 +898,7 @@ func runC32(c *core.Ctx) {
 			chunks := applyEdits(serialise(items, t.prot), nil)
 			input := map[string]any{"scenario": sc.Name, "plan": "well-framed truncation", "record": tc.item, "message_type": tc.typ, "message_index": tc.msg, "cut_at": tc.cut, "variant": tc.variant, "seed": c.Seed}
 			c.Begin(id, input)
-			o := t.replay(chunks, tc.item, tc.cut%2*3, false, false)
+			o := t.replay(chunks, tc.item, tc.cut%2*3, false, false, false)
 			c.End(id)
 			c.Eval(1)
 			c.Count("plan:framed-truncation-sweep", 1)
